@@ -203,6 +203,20 @@ hzmp := pu x: int -> int do
     x
 end
 
+zinf_quot :: fn p ->
+    (p / 2) > "s"
+end
+
+zinf_quotv :: fn p, c ->
+    (p / 2) > (if c do
+        0.0
+    end)
+end
+
+zinf_quotd :: fn p, q ->
+    (p / q) + 1
+end
+
 zinf_tcmp :: fn p ->
     (p, 1) < (6, 1)
 end
@@ -317,6 +331,10 @@ pub const C03_KINDS: &[Kind] = &[
     k("un-annotated recursive function: result used as int, definition returns str", Body::Stmts(&["zrf :: fn zn ->", "    if zn <= 0 do", "        ret \"s\"", "    end", "    zq :: 1 + zrf(zn - 1)", "    \"t\"", "end", "zrf(2)"])),
     k("un-annotated recursive function: result compared with a float, definition returns str", Body::Stmts(&["zrf :: fn zn ->", "    if zn <= 0 do", "        ret \"s\"", "    end", "    if 1.5 <= zrf(zn - 1) do", "    end", "    \"t\"", "end", "zrf(2)"])),
     k("un-annotated recursive function: argument of another type in the recursive call", Body::Stmts(&["zrf :: fn zn, zv ->", "    if zn <= 0 do", "        ret zv + 1", "    end", "    zrf(zn - 1, \"s\")", "end", "zrf(2, 1)"])),
+    // the quotient of a division is a value of its own: what is required of it must survive until the call
+    k("un-annotated `(p / 2) > \"s\"` called with a float", Body::Stmts(&["zinf_quot(1.0)"])),
+    k("un-annotated `(p / 2) > (else-less if)` called with a float", Body::Stmts(&["zinf_quotv(1.0, false)"])),
+    k("un-annotated `(p / q) + 1` called with ints (the quotient is a float)", Body::Stmts(&["zinf_quotd(4, 2)"])),
 ];
 
 // ---------------------------------------------------------------- C04 kinds
